@@ -326,6 +326,11 @@ pub struct WorkerReport {
     pub known_samples: BTreeMap<String, serde_json::Value>,
     pub harness_errors: Vec<String>,
     pub wall_s: f64,
+    /// duration and (abridged) spec of the slowest single case
+    #[serde(default)]
+    pub slowest_s: f64,
+    #[serde(default)]
+    pub slowest_spec: String,
     pub completed: bool,
 }
 
@@ -569,6 +574,7 @@ pub fn run_worker<P: Property>(args: WorkerArgs) {
             if risky {
                 let _ = std::fs::write(&current, serde_json::to_vec(&spec).unwrap_or_default());
             }
+            let t_case = std::time::Instant::now();
             let out = match eval::<P>(&spec, &mut env) {
                 Ok(o) => o,
                 Err(e) => {
@@ -578,6 +584,19 @@ pub fn run_worker<P: Property>(args: WorkerArgs) {
             };
             let shrinking = failed.get();
             let mut st = stc.borrow_mut();
+            let dt = t_case.elapsed().as_secs_f64();
+            if dt > st.rep.slowest_s {
+                st.rep.slowest_s = dt;
+                let mut text = serde_json::to_string(&spec).unwrap_or_default();
+                if text.len() > 1500 {
+                    let mut n = 1500;
+                    while !text.is_char_boundary(n) {
+                        n -= 1;
+                    }
+                    text.truncate(n);
+                }
+                st.rep.slowest_spec = text;
+            }
             if !shrinking {
                 done.set(done.get() + 1);
                 st.rep.generated += 1;
